@@ -3,7 +3,9 @@ package verifx
 import (
 	"bytes"
 	"crypto/sha256"
+	"errors"
 	"fmt"
+	"io"
 	"math/rand"
 	"net"
 	"os"
@@ -172,11 +174,21 @@ func runRelayExecution(t *testing.T, seed int64, log *traceLog) {
 				}
 			}
 		}
-		readClient := func(max int) {
+		// only is the id of the one datagram that can be queued (or ""): then the first read may use a buffer
+		// that is too small for it
+		readClient := func(max int, only string) {
 			for i := 0; i < max; i++ {
 				_ = relay.SetReadDeadline(time.Now().Add(time.Millisecond))
 				buf := make([]byte, 70000)
+				if only != "" && i == 0 && rng.Intn(3) == 0 { // an application buffer that some datagrams do not fit in
+					buf = make([]byte, []int{1, 100, 1200, 1500}[rng.Intn(4)])
+				}
 				k, from, err := relay.ReadFrom(buf)
+				if errors.Is(err, io.ErrShortBuffer) {
+					log.add(map[string]any{"e": "Short", "buf": len(buf), "id": only})
+
+					continue
+				}
 				if err != nil {
 					return
 				}
@@ -212,7 +224,7 @@ func runRelayExecution(t *testing.T, seed int64, log *traceLog) {
 				log.add(map[string]any{"e": "Send", "dir": "p2c", "id": id, "len": len(pay), "from": p.name})
 				_, _ = p.conn.WriteTo(pay, relayAddr)
 				synctest.Wait()
-				readClient(3)
+				readClient(3, id)
 			default: // a burst from several peers that arrives before the application reads
 				k := 3 + rng.Intn(6)
 				for b := 0; b < k; b++ {
@@ -228,13 +240,13 @@ func runRelayExecution(t *testing.T, seed int64, log *traceLog) {
 				}
 				time.Sleep(time.Duration(rng.Intn(3000)) * time.Millisecond)
 				synctest.Wait()
-				readClient(k + 3)
+				readClient(k+3, "")
 			}
 		}
 		time.Sleep(2 * time.Second)
 		synctest.Wait()
 		drainPeers()
-		readClient(50)
+		readClient(50, "")
 		log.add(map[string]any{"e": "End"})
 		_ = relay.Close()
 		synctest.Wait()
